@@ -231,8 +231,19 @@ Theorem walk_depends_on_midnights : forall NM (R : reporter NM) pd pf toks bt et
 Proof. exact PeriodTz.walk_depends_on_midnights. Qed.
 Print Assumptions walk_depends_on_midnights.
 
-(** FALSE without --today: [summary today] against the wall clock depends on the zone the clock is
-    read in (west of UTC it prints the record dated tomorrow): the same instant, two real zones *)
+(** without --today the clock is read, but (fix F25) only the CALENDAR DAY it shows is consulted: two clocks
+    showing the same civil date -- whatever the instants, whatever the zones -- give the same run, for every
+    command (before the fix the instant entered) *)
+Theorem run_depends_on_clock_day_only : forall NM w i tz1 tz2 c1 c2,
+  civ c1 = civ c2 ->
+  run NM (with_zone w tz1 c1) i = run NM (with_zone w tz2 c2) i.
+Proof. exact PeriodTz.run_depends_on_clock_day_only. Qed.
+Print Assumptions run_depends_on_clock_day_only.
+
+(** ... and that day does matter (so [i_f_today i = Some s] cannot be dropped from [tz_independent_clock]):
+    the same instant read in two real zones in which it falls on two different days gives two reports.
+    (Before fix F25 this was a finding: west of UTC [summary today] printed the record dated tomorrow,
+    on the same calendar day; now the witness needs two different days.) *)
 Theorem tz_independent_without_today_refuted :
   exists w i tz1 tz2 c1 c2, tz_ok tz1 /\ tz_ok tz2 /\ off c1 = tz1 /\ off c2 = tz2 /\ inst c1 = inst c2 /\
                             i_f_today i = None /\
